@@ -44,3 +44,7 @@ R.lemma_ob("seq64-closed-form", vars={"a": "int", "k": "int"},
            assumes=[f"1 <= a <= {MAX64}", "k >= 0"],
            shows=[("step", f"succ64((a - 1 + k) % {MAX64} + 1) == (a - 1 + k + 1) % {MAX64} + 1")],
            props=["C16"])
+
+R.object_invariant("SequenceGenerator", f"1 <= self._sequence <= {MAX32}")
+R.assume("class invariant SequenceGenerator: 1 <= _sequence <= 2^32-1 (established by __init__, preserved by next_sequence - "
+         "both proved under C16 - and no other writer in the package)")
